@@ -4,7 +4,7 @@
 REPO="${1:-/repo}"
 OUT="$(mktemp -d)"
 unset ACCELFORGE_VERIF
-(cd "$REPO" && /venv/bin/python -m pytest -ra -q -p no:cacheprovider --timeout=900 \
+(cd "$REPO" && PYTHONPATH="$REPO" /venv/bin/python -m pytest -ra -q -p no:cacheprovider --timeout=900 \
    --continue-on-collection-errors --junitxml="$OUT/junit.xml" > "$OUT/log" 2>&1)
 /venv/bin/python - "$OUT/junit.xml" <<'PY'
 import json, sys, xml.etree.ElementTree as ET
